@@ -46,6 +46,20 @@ func (a *protArena) place(o *Opnd) *Dec {
 	d := (*Dec)(a.alloc(int(unsafe.Sizeof(Dec{}))))
 	*d = Dec{}
 	d.SetMode(decimal.RoundingMode(o.Mode))
+	if o.Form != fFinite && o.Stale != 0 {
+		// a special with a history: the variable held a finite value (mantissa inside the arena) before
+		k := staleKinds[o.Stale]
+		n := len(k.words)
+		ws := unsafe.Slice((*Word)(a.alloc(8*n)), n)
+		for i, w := range k.words {
+			ws[i] = Word(w)
+		}
+		d.SetPrec(60)
+		d.SetBitsExp(ws, k.exp)
+		if o.Form == fZero {
+			d.SetUint64(0)
+		}
+	}
 	switch o.Form {
 	case fZero:
 		d.SetPrec(uint(o.Prec))
@@ -197,6 +211,9 @@ func wprotOperands(tier string) []*Opnd {
 		}
 	}
 	vs = append(vs, mkSpecial(fZero, false, 5, 0), mkSpecial(fZero, true, 0, 2), mkSpecial(fInf, false, 5, 0), mkSpecial(fInf, true, 9, 4))
+	// ±0 / ±Inf in variables that held a finite value before (stale mantissa and exponent)
+	vs = append(vs, mkSpecial(fZero, false, 5, 1).withStale(1), mkSpecial(fZero, true, 7, 3).withStale(2), mkSpecial(fZero, false, 9, 0).withStale(3),
+		mkSpecial(fInf, true, 5, 0).withStale(4), mkSpecial(fInf, false, 5, 5).withStale(3))
 	return vs
 }
 
@@ -207,7 +224,7 @@ func wprotLayers(tier string, prop string) []Layer {
 	return []Layer{{
 		Name:   "W1-write-protected-operands",
 		Units:  nv,
-		Bounds: fmt.Sprintf("%d operations that take Decimal operands (arithmetic, FMA, Sqrt, Set/Neg/Abs/Copy, SetMantExp/MantExp, Cmp, predicates, Text/Format/Append, text/JSON/gob encoders, Int/Int64/Uint64/Rat/Float/Float32/Float64, BitsExp) × operand tuples over %d values (digits, word-edge, 31..128-word values that use the pooled scratch paths, ±0, ±Inf) with the operand structs, their mantissa arrays and Sqrt's shared constants in PROT_READ memory: any store faults; results must equal those on ordinary memory", len(ops), nv),
+		Bounds: fmt.Sprintf("%d operations that take Decimal operands (arithmetic, FMA, Sqrt, Set/Neg/Abs/Copy, SetMantExp/MantExp, Cmp, predicates, Text/Format/Append, text/JSON/gob encoders, Int/Int64/Uint64/Rat/Float/Float32/Float64, BitsExp) × operand tuples over %d values (digits, word-edge, 31..128-word values that use the pooled scratch paths, ±0, ±Inf, also with a stale finite history) with the operand structs, their mantissa arrays and Sqrt's shared constants in PROT_READ memory: any store faults; results must equal those on ordinary memory", len(ops), nv),
 		Run: func(c *Ctx, u int) {
 			if vals == nil {
 				vals = wprotOperands(tier)
